@@ -56,10 +56,15 @@ def ns_for(s, tier):
     return sorted(ns | {n for n in extra if n >= min(ns)})
 
 
+# the single-hex add / sub are documented to take the carry / borrow in
+CARRY_CONSUMERS = {'hex.add/1 carry-in 0', 'hex.sub/1 borrow-in 0'}
+
+
 def variants(tier):
     """every (spec, n, m, C, K, w) bench program"""
     out = []
     for s in S.SPECS:
+        stale_n = min(x for x in ns_for(s, tier) if x >= 2 or len(ns_for(s, tier)) == 1)
         for n in ns_for(s, tier):
             for m in s['ms']:
                 if m is not None and m > n:
@@ -76,6 +81,11 @@ def variants(tier):
                             if w == 32 and tier == 'quick' and (n > 2 or C not in (None, cs[0]) or K not in (None, ks[0])):
                                 continue
                             out.append({'spec': s['name'], 'n': n, 'm': m, 'C': C, 'K': K, 'w': w})
+                        # the same macro entered with a carry / borrow left set by an earlier single-hex add / sub
+                        # ("no stale carry leaks from one macro into the next"): the documented result is the same
+                        if not s['pre'] and s['name'] not in CARRY_CONSUMERS and n == stale_n and C in (None, cs[-1]) and K in (None, ks[-1]):
+                            for pre in ('hex.add.set_carry', 'hex.sub.set_carry'):
+                                out.append({'spec': s['name'], 'n': n, 'm': m, 'C': C, 'K': K, 'w': 64, 'pre': pre})
     return out
 
 
@@ -89,8 +99,8 @@ def build_source(v):
     call = s['call'].format(n=n, m=m, C=v['C'], K=v['K'], L0='L0', L1='L1', L2='L2')
     sizes = var_sizes(s, n, m)
     lines = ['stl.startup_and_init_all', 'again:']
-    if s['pre']:
-        lines.append(s['pre'])
+    if v.get('pre') or s['pre']:
+        lines.append(v.get('pre') or s['pre'])
     lines += [call, "stl.output_char 'F'", ';done']
     for i in range(3):
         lines += ['L%d:' % i, "stl.output_char '%d'" % i, ';done']
@@ -109,7 +119,7 @@ _benches = {}
 
 
 def get_bench(v):
-    key = (v['spec'], v['n'], v['m'], v['C'], v['K'], v['w'])
+    key = (v['spec'], v['n'], v['m'], v['C'], v['K'], v['w'], v.get('pre'))
     if key not in _benches:
         src, sizes = build_source(v)
         _benches[key] = (benchmod.Bench(src, v['w']), sizes)
@@ -134,6 +144,10 @@ def run_tuple(b, sizes, v, values, mem=None, start=None):
     got_out = r['out'].decode('latin-1')
     if r['cause'] != 'Looping':
         return 'termination', {'cause': r['cause'], 'fault': r['fault'], 'out': got_out}
+    if v.get('pre'):
+        # a macro that never touches the flag leaves it set: only value, branch and table state are compared
+        got_out = got_out.replace('!', '').replace('?', '')
+        exp_out = exp_out.replace('!', '').replace('?', '')
     if got_out != exp_out:
         if got_out[:1] != exp_out[:1]:
             return 'branch', {'got': got_out, 'expected': exp_out}
@@ -205,7 +219,7 @@ def run_sweep(v):
         b, sizes = get_bench(v)
     except benchmod.BenchError as e:
         return Violation('c04:%s:bench-program-does-not-assemble' % v['spec'], {'error': str(e)[:600]}, [])
-    cl = ['macro=' + v['spec'], 'w=%d' % v['w'], 'mode=' + v['mode']]
+    cl = ['macro=' + v['spec'], 'w=%d' % v['w'], 'mode=' + v['mode']] + (['entered with a stale carry/borrow'] if v.get('pre') else [])
     count = 0
     nz = 0
     for values in sweep_tuples(v, sizes):
@@ -215,13 +229,13 @@ def run_sweep(v):
         bad = run_tuple(b, sizes, v, values)
         if bad:
             what, detail = bad
-            key = 'c04:%s:%s' % (v['spec'], what)
+            key = 'c04:%s:%s%s' % (v['spec'], 'entered-with-stale-carry:' if v.get('pre') else '', what)
             upd = SPEC_BY_NAME[v['spec']]['f'](dict(values), v['n'], v['m'], v['C'], v['K'])
             if v['spec'].startswith('hex.idiv') and 'q' in upd:
                 a, bb = S.sgn(values['a'], v['n']), S.sgn(values['b'], v['m'])
                 if bb != 0 and a % bb == 0 and v['spec'][-1] in '02':
                     key = 'c04:hex.idiv:rem_opt0|2:zero-remainder-adjusted'
-            return Violation(key, {'variant': {k: v[k] for k in ('spec', 'n', 'm', 'C', 'K', 'w')}, 'operands': values, **detail}, cl)
+            return Violation(key, {'variant': {k: v.get(k) for k in ('spec', 'n', 'm', 'C', 'K', 'w', 'pre')}, 'operands': values, **detail}, cl)
     from fjverif.props import c05
     bad = c05.run_chain(b, sizes, v, 'c04', run_tuple=run_tuple, sweep=sweep_tuples)
     if bad:
